@@ -29,6 +29,9 @@ func (r *Result) features() []string {
 			}
 		}
 	}
+	for _, n := range r.Case.ifaceNames() {
+		out = append(out, "iface:"+n)
+	}
 	out = append(out, r.Case.Cfg.tags()...)
 	out = append(out, "scope:"+r.Case.Scope)
 	return out
